@@ -98,9 +98,20 @@ def key():
     return _KEY
 
 
+_PRUNED = False
+
+
 def cache_dir():
+    global _PRUNED
     d = os.path.join(CACHE, "facts", key())
     os.makedirs(d, exist_ok=True)
+    if not _PRUNED:
+        _PRUNED = True
+        try:
+            os.utime(d, None)        # most recently used: survives the pruning of concurrent runs
+            prune_cache(keep=8)
+        except OSError:
+            pass
     return d
 
 
